@@ -91,8 +91,9 @@ structure SpecSt where
   logs : String := "-"
   snaps : String := "-"
   applied : Nat := 0
+  opened : Bool := false
 
-def specOp (s : SpecSt) (op ans : List String) : SpecSt × String :=
+def specSave (s : SpecSt) (op : List String) : SpecSt × String :=
   match op with
   | ["hs", t, v] => ({ s with term := t.toNat?.getD 0, vote := v.toNat?.getD 0 }, "-")
   | ["applied", n] => ({ s with applied := n.toNat?.getD 0 }, "-")
@@ -105,14 +106,24 @@ def specOp (s : SpecSt) (op ans : List String) : SpecSt × String :=
     (s3, "-")
   | ["logs", l] => ({ s with logs := if l == "" then "-" else l }, "-")
   | ["snaps", l] => ({ s with snaps := if l == "" then "-" else l }, "-")
+  | _ => (s, "-")
+
+def specOp (s : SpecSt) (op ans : List String) : SpecSt × String :=
+  match op with
   | ["open"] | ["reopen"] =>
-    (s, if ans == ["ok"] then "spec ok" else "spec FAIL the store does not reopen")
+    ({ s with opened := true }, if ans == ["ok"] then "spec ok" else "spec FAIL the store does not reopen")
   | ["info"] =>
+    if !s.opened then (s, "-") else
     let addrs := (s.addrs.map fun a => s!"{a.1}@{a.2}").mergeSort (· ≤ ·)
     let j (l : List String) : String := if l.isEmpty then "-" else ";".intercalate l
-    let want := s!"term={s.term} vote={s.vote} member={joinN s.member} after={joinN s.after} addrs={j addrs} logs={s.logs} snaps={s.snaps} applied={s.applied}"
-    (s, if " ".intercalate ans == want then "spec ok" else s!"spec FAIL saved state not returned: want [{want}]")
-  | _ => (s, "-")
+    -- the property's subject: term, vote, membership, addresses (and the catalogue that shares the record);
+    -- the last-applied header is compared between model and implementation only
+    let want := s!"term={s.term} vote={s.vote} member={joinN s.member} after={joinN s.after} addrs={j addrs} logs={s.logs} snaps={s.snaps}"
+    let got := " ".intercalate (ans.filter fun w => !w.startsWith "applied=")
+    (s, if got == want then "spec ok" else s!"spec FAIL saved state not returned: want [{want}]")
+  | _ =>
+    -- only acknowledged saves count
+    if ans == ["ok"] then specSave s op else (s, "-")
 
 def specStep (s : SpecSt) (ws : List String) : SpecSt × String :=
   match ws with
